@@ -471,7 +471,7 @@ func run(c *vf.Ctx) {
 	c.Floor("applier runs", c.Counter("applier_runs"), c.N(80000, 600000))
 	c.Floor("distinct appliers/variants driven", c.SeenCount("appliers"), 38)
 	c.Floor("distinct model reject reasons exercised", c.SeenCount("reject_reasons"), 10)
-	c.Floor("git confirmations", c.Counter("git_confirmations"), c.N(250, 1500))
+	c.Floor("git confirmations", c.Counter("git_confirmations"), c.N(250, 1000))
 	c.Assume("git 2.39.5 index-pack/patch-delta.c is the reference; the delta format has not changed since")
 	c.Assume("deltas whose size headers need a shift >= 64 in get_delta_hdr_size (C undefined behaviour) or whose declared target exceeds 256 MiB are outside the domain")
 	c.Assume("base and target objects are blobs; pack entries are zlib streams whose inflated size equals the entry header (pack-level malformations belong to C07/C09)")
